@@ -1,4 +1,5 @@
 """C11 -- only spec-conforming inputs create a process; defaults applied, inputs immutable."""
+import collections
 import copy
 
 import plumpy
@@ -160,6 +161,8 @@ def rand_inputs(rng, ns):
                 continue
             if r < 0.8:
                 out[name] = rand_inputs(rng, d)
+                if rng.random() < 0.15:
+                    out[name]['@OD'] = True  # marker: hand this nested mapping over as an OrderedDict
             elif r < 0.9:
                 out[name] = {}
             else:
@@ -187,7 +190,10 @@ def _real(value):
     if value == '@B':
         return B()
     if isinstance(value, dict):
-        return {k: _real(v) for k, v in value.items()}
+        out = {k: _real(v) for k, v in value.items() if k != '@OD'}
+        if value.get('@OD'):
+            return collections.OrderedDict(out)  # a dict subclass given by the caller
+        return out
     return value
 
 
